@@ -25,6 +25,7 @@ structure ArchOK (w : World) : Prop where
   cache : ∀ ids i, w.cache ids = some i → i < w.arts.length ∧ (w.art i).mask = setAll [] ids
   sorted : ∀ j, j < w.arts.length → Sorted (w.art j).mask
   cols : ∀ j, j < w.arts.length → (w.art j).store.cols = (w.art j).mask
+  built : ∀ j, j < w.arts.length → ∃ ids, (w.art j).mask = setAll [] ids
 
 /-- `w'` extends `w`: same slots/index/components, old archetypes keep mask, members and storage,
 new archetypes are empty -/
@@ -80,6 +81,11 @@ theorem new_ok : ArchOK World.new := by
     have : j = 0 := by omega
     subst this
     rfl
+  · intro j hj
+    simp only [World.new, List.length_singleton] at hj
+    have : j = 0 := by omega
+    subst this
+    exact ⟨[], rfl⟩
 
 /-- recording an edge to an existing archetype with the right mask -/
 theorem setEdge_ok (w : World) (curr next : Nat) (m : Mask) (h : ArchOK w) (hc : curr < w.arts.length)
@@ -125,13 +131,16 @@ theorem setEdge_ok (w : World) (curr next : Nat) (m : Mask) (h : ArchOK w) (hc :
     · intro j hj
       rw [hlen] at hj
       rw [(hart j).1, (hart j).2.2.1]; exact h.cols j hj
+    · intro j hj
+      rw [hlen] at hj
+      rw [(hart j).1]; exact h.built j hj
   · refine ⟨rfl, rfl, rfl, by rw [hlen]; exact Nat.le_refl _, ?_, ?_⟩
     · intro j _; exact ⟨(hart j).1, (hart j).2.1, (hart j).2.2.1⟩
     · intro j h1 h2; rw [hlen] at h2; omega
 
 /-- creating the archetype for a mask (`noneLockCreateArchetype`), with the edge from `curr` -/
 theorem create_ok (w : World) (curr : Nat) (m : Mask) (h : ArchOK w) (hc : curr < w.arts.length)
-    (hs : Sorted m) :
+    (hs : Sorted m) (hb : ∃ ids, m = setAll [] ids) :
     let c := w.art curr
     let w' : World := { w with
       arts := w.arts.set curr { c with addEdges := upd c.addEdges m (some w.arts.length) } ++ [Arch.new m],
@@ -193,6 +202,10 @@ theorem create_ok (w : World) (curr : Nat) (m : Mask) (h : ArchOK w) (hc : curr 
       rcases hcases j hj with hj' | hj'
       · rw [(hold j hj').1, (hold j hj').2.2.1]; exact h.cols j hj'
       · subst hj'; rw [hnew]; rfl
+    · intro j hj
+      rcases hcases j hj with hj' | hj'
+      · rw [(hold j hj').1]; exact h.built j hj'
+      · subst hj'; rw [hnew]; exact hb
   · refine ⟨rfl, rfl, rfl, by omega, ?_, ?_⟩
     · intro j hj; exact ⟨(hold j hj).1, (hold j hj).2.1, (hold j hj).2.2.1⟩
     · intro j h1 h2
@@ -231,6 +244,11 @@ theorem walk_ok (ids : List Nat) : ∀ (w : World) (curr : Nat) (mask : Mask), A
   | cons id rest ih =>
     intro w curr mask h hc hm
     have hsm : Sorted (setBit mask id) := sorted_setBit mask id (hm ▸ h.sorted curr hc)
+    have hbm : ∃ ids, setBit mask id = setAll [] ids := by
+      obtain ⟨ids0, h0⟩ := h.built curr hc
+      refine ⟨ids0 ++ [id], ?_⟩
+      rw [← hm, h0]
+      simp [setAll, List.foldl_append]
     rw [setAll_cons]
     cases he : (w.art curr).addEdges (setBit mask id) with
     | some next =>
@@ -241,7 +259,7 @@ theorem walk_ok (ids : List Nat) : ∀ (w : World) (curr : Nat) (mask : Mask), A
       cases hk : w.masks (setBit mask id) with
       | none =>
         rw [walk_new w curr id mask rest he hk]
-        obtain ⟨h1, e1, c1, l1, m1⟩ := create_ok w curr (setBit mask id) h hc hsm
+        obtain ⟨h1, e1, c1, l1, m1⟩ := create_ok w curr (setBit mask id) h hc hsm hbm
         obtain ⟨h2, e2, c2, l2, m2⟩ := ih _ w.arts.length (setBit mask id) h1 l1 m1
         exact ⟨h2, e1.trans e2, by rw [c2, c1], l2, m2⟩
       | some next =>
@@ -292,6 +310,7 @@ theorem archGet_ok (w : World) (ids : List Nat) (h : ArchOK w) :
         · simp only [e, if_false] at hi; exact h1.cache ids' i hi
       · exact h1.sorted
       · exact h1.cols
+      · exact h1.built
     · exact ⟨e1.ncomp, e1.slots, e1.index, e1.len, e1.old, e1.fresh⟩
 
 end MV.Lemmas.ECSArch
